@@ -284,11 +284,33 @@ def corrected_before_lookup(ctx, rule='A6b'):
                                         call_summary=make_call_summary(ctx, fn, sn_))
             cfg = build_cfg(fn)
             found = 0
+            # a private helper of the unit that hands one of its parameters (uncorrected inside the helper) to a sink
+            # is a sink for the corresponding argument (extract-method: "decode and validate" moved into a helper)
+            helper_sinks = {}
+            for h in unit_functions(ctx.prog, fn)[1:]:
+                hp = [q for q in h.params if q not in ('self', 'cls')]
+                for i_q, q in enumerate(hp):
+                    INh, th = forward_taint(h, {q}, sanitizer=sn_)
+                    cfgh = build_cfg(h)
+                    if any(isinstance(c, ast.Call) and call_name(c) in sinks and c.args and th(c.args[0], INh[nh.id])
+                           for nh in cfgh.nodes for e in node_exprs(nh) if e is not None for c in walk_no_nested(e)):
+                        helper_sinks.setdefault(h.name, set()).add((i_q, q))
             for n in cfg.nodes:
                 for e in node_exprs(n):
                     if e is None:
                         continue
                     for c in walk_no_nested(e):
+                        if isinstance(c, ast.Call) and call_name(c) in helper_sinks and call_name(c) not in sinks:
+                            for i_q, q in sorted(helper_sinks[call_name(c)]):
+                                arg = c.args[i_q] if i_q < len(c.args) else kwarg(c, q)
+                                if arg is None:
+                                    continue
+                                found += 1
+                                bad = tainted(arg, IN[n.id])
+                                ctx.ob(rule, fkey(fn, rule, f'{label}-corrected-before:{call_name(c)}'), not bad,
+                                       f'{fn.module.relpath}:{n.lineno}',
+                                       f'the vector handed to {call_name(c)} (which decodes it / looks it up) has '
+                                       f'passed the {label} correction', short(c, 80))
                         if isinstance(c, ast.Call) and call_name(c) in sinks and c.args:
                             found += 1
                             bad = tainted(c.args[0], IN[n.id])
